@@ -10,6 +10,7 @@ import TaskctlVerif.Model.Vars
 import TaskctlVerif.Model.Capture
 import TaskctlVerif.Model.Imports
 import TaskctlVerif.Model.Refs
+import TaskctlVerif.Model.Loader
 /-!
 Line-protocol oracle: one case per line on stdin (`<family> <payload>`), one observation per line on
 stdout.  Compiled from exactly the definitions the theorems are about (core Lean only).
@@ -302,6 +303,36 @@ def refsCase (fields : List String) : String :=
     | _ => none
   if Refs.accept { tasks := tasks, pipelines := pipes, watchers := watch } then "accept" else "reject"
 
+/-! ### loader shapes -/
+
+def hexStr (cs : List Char) : String :=
+  let hd (n : Nat) : Char := if n < 10 then Char.ofNat (48 + n) else Char.ofNat (87 + n)
+  String.ofList (cs.flatMap fun c => [hd (c.toNat / 16), hd (c.toNat % 16)])
+
+/-- `envfile 413d62,,433d64` : comma-separated hex of each line (ASCII) -/
+def envfileCase (fields : List String) : String :=
+  let lines : List (List Char) := ((fields.getD 0 "").splitOn ",").map fun h => (hexBytes h.toList).map Char.ofNat
+  match Loader.readEnvLines lines with
+  | .ok m =>
+    -- Go builds a map: the last occurrence of a name wins; canonical = sorted by name
+    let dedup := m.foldl (fun acc (kv : List Char × List Char) => (acc.filter (·.1 != kv.1)) ++ [kv]) []
+    let strs := dedup.map fun kv => hexStr kv.1 ++ "=" ++ hexStr kv.2
+    "ok:" ++ ",".intercalate (sortStrings strs)
+  | .err => "err"
+  | .panic => "panic"
+
+/-- `impshape null|str|num|bool|map|list:str,num,…` -/
+def impshapeCase (fields : List String) : String :=
+  let mk (k : String) : Loader.Value :=
+    if k = "str" then .str "x.yaml" else if k = "num" then .num 3 else if k = "bool" then .bool true
+    else if k = "map" then .map [] else if k = "list" then .list [] else .null
+  let shape := fields.getD 0 ""
+  let v : Loader.Value :=
+    if shape.startsWith "list:" then .list ((splitNonEmpty (shape.drop 5).toString ",").map mk) else mk shape
+  match Loader.importList v with
+  | .panic => "panic"
+  | _ => "nopanic"
+
 def handle (line0 : String) : String :=
   if line0.startsWith "args " then argsCase ((line0.dropEndWhile (· == '\n')).toString) else
   let line := line0.trimAscii.toString
@@ -320,6 +351,8 @@ def handle (line0 : String) : String :=
   | "envname" :: rest => envnameCase rest
   | "imports" :: rest => importsCase rest
   | "refs" :: rest => refsCase rest
+  | "envfile" :: rest => envfileCase rest
+  | "impshape" :: rest => impshapeCase rest
   | _ => "bad-op"
 
 partial def loop (h : IO.FS.Stream) (out : IO.FS.Stream) : IO Unit := do
